@@ -66,18 +66,22 @@ def run(model, rep):
     # ---- ENC: what is written is the strict UTF-8 encoding of the answer of minify()
     for (what, text, want) in (('non-ASCII text', 'x="\xe9\u20ac\U0001f600"', 'x="\xe9\u20ac\U0001f600"'.encode('utf-8')), ('ASCII text', 'x=1', b'x=1'), ('text with a lone surrogate', 'x="\udc80"', None)):
         for via, argv in (('stdout', ['m.py']), ('--output', ['m.py', '--output', 'o.py']), ('--in-place', ['m.py', '--in-place'])):
-            SRC = b'x = "................................................"\n'
-            sc = clirun.Scenario(argv, files={'m.py': SRC}, answers={SRC: ('ok', text)})
-            r = clirun.run(model, sc)
-            written = [ev[1] for ev in r.events('stdout-bytes')] + [ev[3] for ev in r.events('write')]
-            if want is None:
-                ok = r.failed() and not written
-                why = 'a result that cannot be encoded as UTF-8 is written as %r (%s) instead of failing' % (written, r.outcome)
-            else:
-                ok = written == [want] and not r.failed()
-                why = '%r is written, expected the UTF-8 encoding %r' % (written, want)
-            rep.check(ok, 'C16.ENC', main.loc(), '%s to %s' % (what, via), 'strict UTF-8 encoding of the result', why, key='C16.ENC|%s|%s' % (what, via))
-    rep.floor('C16.ENC', 9)
+            for (how, SRC) in (('plain source', b'x = "................................................"\n'),
+                               ('source with a latin-1 cookie', b'# -*- coding: latin-1 -*-\nx = "\xe9..............................................."\n'),
+                               ('source with a UTF-8 BOM', b'\xef\xbb\xbfx = "................................................"\n')):
+                sc = clirun.Scenario(argv, files={'m.py': SRC}, answers={SRC: ('ok', text)})
+                r = clirun.run(model, sc)
+                written = [ev[1] for ev in r.events('stdout-bytes')] + [ev[3] for ev in r.events('write')]
+                if any(not isinstance(w, bytes) for w in written):
+                    raise AnalysisError('UNDECIDED: %s to %s, %s: what is written is not determined (%r)' % (what, via, how, written))
+                if want is None:
+                    ok = r.failed() and not written
+                    why = 'a result that cannot be encoded as UTF-8 is written as %r (%s) instead of failing' % (written, r.outcome)
+                else:
+                    ok = written == [want] and not r.failed()
+                    why = '%r is written, expected the UTF-8 encoding %r (the output carries no coding cookie, so it is read as UTF-8)' % (written, want)
+                rep.check(ok, 'C16.ENC', main.loc(), '%s to %s, %s' % (what, via, how), 'strict UTF-8 encoding of the result', why, key='C16.ENC|%s|%s|%s' % (what, via, how))
+    rep.floor('C16.ENC', 27)
 
     # ---- SHEB
     fs = model.func('python_minifier._find_shebang')
